@@ -32,15 +32,34 @@ type K8sScaleCase struct {
 	Expect  int32  `json:"expect"`
 	ExtraLo int    `json:"extraClaimsBelow"`
 	UpdErr  int    `json:"updateError"` // 0: accepted, 1: the API server answers 409 Conflict, 2: another error
+	Other   bool   `json:"otherSet"`    // a second StatefulSet matches the selector (listed after this one)
 }
 type K8sPod struct {
 	Ord int `json:"ord"` // -1: a pod with an unrelated name
 	IP  int `json:"ip"`  // 0: no IP yet
 }
 type K8sShardsCase struct {
-	Kind string   `json:"kind"`
-	Pods []K8sPod `json:"pods"`
+	Kind  string   `json:"kind"`
+	Pods  []K8sPod `json:"pods"`
+	Other bool     `json:"otherSet"`
 }
+
+// a second StatefulSet of the same selector, with its own pods' claims
+func otherSet() []runtime.Object {
+	two := int32(2)
+	o := newSts(&two, 1, 2, 2)
+	o.Name = "zz-other"
+	o.Spec.Selector = &metav1.LabelSelector{MatchLabels: map[string]string{"pod": "zz"}}
+	objs := []runtime.Object{o}
+	for i := 0; i < 2; i++ {
+		pvc := &corev1.PersistentVolumeClaim{}
+		pvc.Name = fmt.Sprintf("data0-zz-other-%d", i)
+		pvc.Namespace = stsNS
+		objs = append(objs, pvc)
+	}
+	return objs
+}
+
 type K8sRollCase struct {
 	Kind     string `json:"kind"`
 	Replicas int32  `json:"replicas"`
@@ -89,10 +108,15 @@ func runK8sScale(c *K8sScaleCase) (line string, obs map[string]interface{}) {
 			objs = append(objs, pvc)
 		}
 	}
+	want := 1
+	if c.Other {
+		objs = append(objs, otherSet()...)
+		want = 2
+	}
 	cli := fake.NewSimpleClientset(objs...)
 	rm := kk.NewReplicasManager(cli, stsNS, "app=kvass", 8080, c.Del, quietLog())
 	mgrs, err := rm.Replicas()
-	if err != nil || len(mgrs) != 1 {
+	if err != nil || len(mgrs) != want {
 		return "", map[string]interface{}{"error": fmt.Sprint("replicas: ", err, len(mgrs))}
 	}
 	if c.UpdErr != 0 {
@@ -130,6 +154,11 @@ func runK8sScale(c *K8sScaleCase) (line string, obs map[string]interface{}) {
 				}
 			}
 			dels = append(dels, del{t, i})
+		}
+	}
+	if c.Other {
+		if o, _ := cli.AppsV1().StatefulSets(stsNS).Get(context.TODO(), "zz-other", metav1.GetOptions{}); o == nil || o.Spec.Replicas == nil || *o.Spec.Replicas != 2 {
+			dels = append(dels, del{998, -998}) // the other StatefulSet was rescaled: shows up as a foreign effect
 		}
 	}
 	got, _ := cli.AppsV1().StatefulSets(stsNS).Get(context.TODO(), stsName, metav1.GetOptions{})
@@ -178,6 +207,11 @@ func runK8sShards(c *K8sShardsCase, rng *Rng) (string, map[string]interface{}) {
 		}
 		objs = append(objs, pod)
 	}
+	want := 1
+	if c.Other {
+		objs = append(objs, otherSet()...)
+		want = 2
+	}
 	cli := fake.NewSimpleClientset(objs...)
 	// the fake clientset lists in name order; re-order the list the way the case says
 	cli.PrependReactor("list", "pods", func(a k8stesting.Action) (bool, runtime.Object, error) {
@@ -200,7 +234,7 @@ func runK8sShards(c *K8sShardsCase, rng *Rng) (string, map[string]interface{}) {
 	})
 	rm := kk.NewReplicasManager(cli, stsNS, "app=kvass", 8080, false, quietLog())
 	mgrs, err := rm.Replicas()
-	if err != nil || len(mgrs) != 1 {
+	if err != nil || len(mgrs) != want {
 		return "", map[string]interface{}{"error": fmt.Sprint("replicas: ", err, len(mgrs))}
 	}
 	shards, err := mgrs[0].Shards()
@@ -261,7 +295,7 @@ func runK8sRoll(c *K8sRollCase) (string, map[string]interface{}) {
 
 func runK8s(a Args) *Result {
 	res := newResult("k8s", a.seed, a.tier)
-	res.Rule = "scale: every (current, requested) in [0,6]^2 x templates 0..3 x deletePVC x nil-replicas (exhaustive), plus a rejected Update (409 Conflict / other error) for every changing pair in [0,5]^2 x templates 0..2; shards: random pod lists (permutations of ordinals, missing IPs, malformed lists with gaps/foreign names); rolling: all (replicas, updated) in [0,3]^2; non-trivial = the scale changes, or the pod list is a non-identity permutation"
+	res.Rule = "scale: every (current, requested) in [0,6]^2 x templates 0..3 x deletePVC x nil-replicas (exhaustive), plus a rejected Update (409 Conflict / other error) for every changing pair in [0,5]^2 x templates 0..2; a third of the cases with a second StatefulSet of the same selector listed after this one; shards: random pod lists (permutations of ordinals, missing IPs, malformed lists with gaps/foreign names); rolling: all (replicas, updated) in [0,3]^2; non-trivial = the scale changes, or the pod list is a non-identity permutation"
 	rng := NewRng(a.seed)
 	type item struct {
 		c   interface{}
@@ -285,7 +319,7 @@ func runK8s(a Args) *Result {
 		for exp := int32(0); exp <= lim; exp++ {
 			for t := 0; t <= 3; t++ {
 				for _, del := range []bool{false, true} {
-					c := &K8sScaleCase{Kind: "scale", Del: del, Cur: cur, Tpls: t, Expect: exp}
+					c := &K8sScaleCase{Kind: "scale", Del: del, Cur: cur, Tpls: t, Expect: exp, Other: (int(cur)+int(exp)+t)%3 == 0}
 					l, o := runK8sScale(c)
 					add(c, l, o)
 					if cur != exp && t <= 2 && cur <= 5 && exp <= 5 { // the API server rejects the update
@@ -308,7 +342,7 @@ func runK8s(a Args) *Result {
 	}
 	for k := 0; k < nShards; k++ {
 		n := rng.Intn(13)
-		c := &K8sShardsCase{Kind: "shards"}
+		c := &K8sShardsCase{Kind: "shards", Other: rng.Chance(30)}
 		perm := make([]int, n)
 		for i := range perm {
 			perm[i] = i
